@@ -4,7 +4,9 @@ package main
 
 import (
 	"fmt"
+	"os"
 	"go/ast"
+	"go/printer"
 	"go/constant"
 	"go/token"
 	"go/types"
@@ -36,6 +38,8 @@ type Ev struct {
 	ctx   evalCtx
 	fn    *ssa.Function
 	depth int
+	sumDepth int
+	where string
 }
 
 func (x *X) newEv(s *State, ctx evalCtx) *Ev {
@@ -61,6 +65,7 @@ func (x *X) newEv(s *State, ctx evalCtx) *Ev {
 
 func (x *X) evalClause(s *State, c *Clause, ctx evalCtx) string {
 	ev := x.newEv(s, ctx)
+	ev.where = fmt.Sprintf("%s:%d", filepathBase(c.File), c.Line)
 	v := ev.eval(c.Expr)
 	sc, ok := v.(Sc)
 	if !ok || sc.Sort != "Bool" {
@@ -73,7 +78,10 @@ func (x *X) evalVal(s *State, c *Clause, ctx evalCtx) Val {
 	ev := x.newEv(s, ctx)
 	v := ev.eval(c.Expr)
 	if mv, ok := v.(MapV); ok { // snapshot the content of a Go map
-		m := s.maps[mv.ID]
+		m, ok := s.maps[mv.ID]
+		if !ok {
+			x.fail("%s:%d: let of a map that does not exist in this state (id %d)", c.File, c.Line, mv.ID)
+		}
 		return MapSnap{m}
 	}
 	return ev.x.flat(s, v)
@@ -89,7 +97,17 @@ type GRec struct {
 }
 
 func (ev *Ev) errf(format string, a ...interface{}) {
-	ev.x.fail("contract of %s: %s", ev.x.key, fmt.Sprintf(format, a...))
+	if os.Getenv("GOVC_DEBUG") == "2" {
+		panic(fmt.Sprintf(format, a...))
+	}
+	ev.x.fail("contract of %s (%s): %s", ev.x.key, ev.where, fmt.Sprintf(format, a...))
+}
+
+func filepathBase(p string) string {
+	if i := strings.LastIndex(p, "/"); i >= 0 {
+		return p[i+1:]
+	}
+	return p
 }
 
 func (ev *Ev) lookupScope(name string) (Val, bool) {
@@ -154,6 +172,16 @@ func (ev *Ev) ident(name string) Val {
 	}
 	if name == "idx" && ev.ctx.loopHeader != nil {
 		return x.loopIndex(ev.now, ev.ctx.loopHeader)
+	}
+	if strings.HasPrefix(name, "idx") && ev.ctx.loopHeader != nil {
+		// idxK: iteration count of the enclosing loop with ordinal K
+		if k, err := strconv.Atoi(name[3:]); err == nil {
+			for h, o := range x.loopOrd {
+				if o == k && h.Dominates(ev.ctx.loopHeader) {
+					return x.loopIndex(ev.now, h)
+				}
+			}
+		}
 	}
 	// ghost variables
 	if v, ok := ev.cur.ghost[name]; ok {
@@ -258,15 +286,22 @@ func (x *X) sourceVar(s *State, name string, h *ssa.BasicBlock) (Val, bool) {
 			}
 		}
 	}
-	// DebugRef of a definition that dominates the header: take the last one in dominance order
+	// DebugRef (anywhere in the function) to a value whose definition dominates the header: a variable that is not
+	// loop carried has one reaching definition there; take the latest definition in dominance order. Constant
+	// initialisers (x := T{} is recorded as nil before the composite literal is built) are used only as a fallback.
 	var best ssa.Value
 	var bestBlock *ssa.BasicBlock
 	bestIdx := -1
-	for _, b := range x.fn.Blocks {
-		if !(b.Dominates(h)) || b == h {
-			continue
+	var constBest ssa.Value
+	defBlock := func(v ssa.Value) (*ssa.BasicBlock, int) {
+		in, ok := v.(ssa.Instruction)
+		if !ok {
+			return nil, -1
 		}
-		for i, in := range b.Instrs {
+		return in.Block(), instrIndex(in)
+	}
+	for _, b := range x.fn.Blocks {
+		for _, in := range b.Instrs {
 			d, ok := in.(*ssa.DebugRef)
 			if !ok || d.IsAddr {
 				continue
@@ -275,15 +310,49 @@ func (x *X) sourceVar(s *State, name string, h *ssa.BasicBlock) (Val, bool) {
 			if !ok || id.Name != name {
 				continue
 			}
-			if _, has := fr.env[d.X]; !has {
-				if _, isC := d.X.(*ssa.Const); !isC {
-					continue
+			if _, isC := d.X.(*ssa.Const); isC {
+				if b.Dominates(h) && b != h {
+					constBest = d.X
 				}
+				continue
 			}
-			if best == nil || bestBlock.Dominates(b) && (bestBlock != b || i > bestIdx) {
-				best, bestBlock, bestIdx = d.X, b, i
+			if _, has := fr.env[d.X]; !has {
+				continue
+			}
+			db, di := defBlock(d.X)
+			if db == nil {
+				// parameter or free variable
+				if best == nil {
+					best, bestBlock, bestIdx = d.X, x.fn.Blocks[0], -1
+				}
+				continue
+			}
+			if !db.Dominates(h) || db == h {
+				continue
+			}
+			if best == nil || bestBlock.Dominates(db) && (bestBlock != db || di > bestIdx) {
+				best, bestBlock, bestIdx = d.X, db, di
 			}
 		}
+	}
+	if best == nil && constBest != nil {
+		best, bestBlock = constBest, x.fn.Blocks[0]
+	}
+	if best == nil && os.Getenv("GOVC_DEBUG") != "" {
+		fmt.Fprintf(os.Stderr, "sourceVar %s at b%d: no candidate; env size %d\n", name, h.Index, len(fr.env))
+		for _, b := range x.fn.Blocks {
+			for _, in := range b.Instrs {
+				if d, ok := in.(*ssa.DebugRef); ok {
+					if id, ok := d.Expr.(*ast.Ident); ok && id.Name == name {
+						_, has := fr.env[d.X]
+						fmt.Fprintf(os.Stderr, "   debugref in b%d dominates=%v isaddr=%v has=%v x=%s\n", b.Index, b.Dominates(h), d.IsAddr, has, d.X)
+					}
+				}
+			}
+		}
+	}
+	if best != nil && os.Getenv("GOVC_DEBUG") != "" {
+		fmt.Fprintf(os.Stderr, "sourceVar %s at b%d -> %s (%T) in b%d = %#v\n", name, h.Index, best, best, bestBlock.Index, fr.env[best])
 	}
 	if best != nil {
 		if c, ok := best.(*ssa.Const); ok {
@@ -545,11 +614,27 @@ func (ev *Ev) index(base, idx Val) Val {
 func (ev *Ev) binary(n *ast.BinaryExpr) Val {
 	switch n.Op {
 	case token.LAND:
-		return boolV(sAnd(tm(ev.eval(n.X)), tm(ev.eval(n.Y))))
+		l := tm(ev.eval(n.X))
+		if l == "false" {
+			return boolV("false")
+		}
+		return boolV(sAnd(l, tm(ev.eval(n.Y))))
 	case token.LOR:
-		return boolV(sOr(tm(ev.eval(n.X)), tm(ev.eval(n.Y))))
+		l := tm(ev.eval(n.X))
+		if l == "true" {
+			return boolV("true")
+		}
+		return boolV(sOr(l, tm(ev.eval(n.Y))))
 	}
 	l, r := ev.eval(n.X), ev.eval(n.Y)
+	if (l == nil || r == nil) && os.Getenv("GOVC_DEBUG") != "" {
+		var buf strings.Builder
+		printer.Fprint(&buf, token.NewFileSet(), n)
+		fmt.Fprintf(os.Stderr, "nil operand in: %s   l=%#v r=%#v\n", buf.String(), l, r)
+		if ie, ok := n.X.(*ast.IndexExpr); ok {
+			fmt.Fprintf(os.Stderr, "   base=%#v\n", ev.eval(ie.X))
+		}
+	}
 	switch n.Op {
 	case token.EQL:
 		return boolV(ev.equal(l, r))
@@ -704,7 +789,11 @@ func (ev *Ev) call(n *ast.CallExpr) Val {
 		return v
 	case "imp":
 		need(2)
-		return boolV(sImp(tm(arg(0)), tm(arg(1))))
+		lhs := tm(arg(0))
+		if lhs == "false" {
+			return boolV("true") // short-circuit: the consequent may not even be well defined (nil result on this path)
+		}
+		return boolV(sImp(lhs, tm(arg(1))))
 	case "iff":
 		need(2)
 		return boolV(sEq(tm(arg(0)), tm(arg(1))))
@@ -953,8 +1042,10 @@ func (ev *Ev) sum(n *ast.CallExpr) Val {
 	vn := n.Args[0].(*ast.Ident).Name
 	lo := ev.sc(ev.eval(n.Args[1]))
 	hi := ev.sc(ev.eval(n.Args[2]))
-	const bv = "sumvar"
+	ev.sumDepth++
+	bv := fmt.Sprintf("sumvar%d", ev.sumDepth) // unique per nesting level; canonicalised to "sumvar" in the function body
 	body := ev.withScope(map[string]Val{vn: Sc{T: bv, Sort: "Int"}}, func() Val { return ev.eval(n.Args[3]) })
+	ev.sumDepth--
 	bt := ev.sc(body)
 	be, err := parseSx(bt)
 	if err != nil {
@@ -977,10 +1068,11 @@ func (ev *Ev) sum(n *ast.CallExpr) Val {
 		}
 		sorts = append(sorts, so)
 	}
-	key := cb.String() + "|" + cl.String() + "|" + strings.Join(sorts, ",")
+	cbs := replaceToken(cb.String(), bv, "sumvar")
+	key := cbs + "|" + cl.String() + "|" + strings.Join(sorts, ",")
 	sf, ok := x.sums[key]
 	if !ok {
-		sf = &SumFn{Lo: cl.String(), Body: cb.String(), PSorts: sorts}
+		sf = &SumFn{Lo: cl.String(), Body: cbs, PSorts: sorts}
 		sf.Name = x.declFun("sum", append(append([]string{}, sorts...), "Int"), "Int")
 		x.sums[key] = sf
 	}
